@@ -67,7 +67,7 @@ def plan(tier, seed):
     for fam in ["hexahedron", "quad"] + ([] if quick else ["tetra", "triangle", "hexahedron20", "quad8"]):
         for mat in (MATS[:1] if quick else MATS[:3]):
             cases.append(dict(key=f"axes/{fam}/{mat}", kind="axes", fam=fam, mat=mat, seed=seed, cost=25))
-    for mat in MATS + ["neo_hooke-incompressible", "mooney_rivlin-incompressible", "yeoh-incompressible", "ogden-incompressible"]:
+    for mat in MATS + ["NeoHooke@1e-09", "NeoHooke@1e-06", "NeoHooke@1000000.0", "neo_hooke-incompressible", "mooney_rivlin-incompressible", "yeoh-incompressible", "ogden-incompressible"]:
         cases.append(dict(key=f"view/{mat}", kind="view", mat=mat, seed=seed, cost=3))
     return cases
 
@@ -80,6 +80,9 @@ def ENERGY(mat):
     def vol(J):
         return K / 2 * (J - 1) ** 2
 
+    if mat.startswith("NeoHooke@"):
+        s_ = float(mat.split("@")[1])
+        return lambda a, b, c: s_ * (mu / 2 * ((a * b * c) ** (-2 / 3) * (a * a + b * b + c * c) - 3) + vol(a * b * c))
     if mat == "NeoHooke":
         return lambda a, b, c: mu / 2 * ((a * b * c) ** (-2 / 3) * (a * a + b * b + c * c) - 3) + vol(a * b * c)
     if mat == "NeoHookeCompressible":
@@ -118,6 +121,9 @@ def make_umat(mat):
     import felupe.constitution as C
 
     K = 5.0
+    if mat.startswith("NeoHooke@"):  # the same material in another stress unit (all moduli x s)
+        s_ = float(mat.split("@")[1])
+        return fem.NeoHooke(mu=1.0 * s_, bulk=K * s_)
     if mat == "NeoHooke":
         return fem.NeoHooke(mu=1.0, bulk=K)
     if mat == "NeoHookeCompressible":
@@ -399,7 +405,7 @@ def run(case):
                 free = [k for k in range(3) if k not in fixed]
                 l = solve_free(W, fixed, free) if free else [fixed[k] for k in range(3)]
                 mesh0, _, _ = build(fam, "distorted", seed, n=2)
-                mesh = zoo._finish(fem.Mesh(mesh0.points * ext, mesh0.cells, mesh0.cell_type), fam)
+                mesh = fem.Mesh(mesh0.points * ext, mesh0.cells, mesh0.cell_type)  # (mesh0 is already of family `fam`)
                 region = zoo.region(fam, mesh)
                 Fcls = fem.Field if d == 3 else fem.FieldPlaneStrain
                 field = fem.FieldContainer([Fcls(region, dim=d)])
@@ -502,6 +508,6 @@ def run(case):
                     else:
                         l = solve_free(W, {0: s, 1: s}, [2])
                     ref.append(dW(W, l, 0))
-                c.close(f"{path}", f"view curve '{label}' vs the closed form (transverse stress free)", force, np.array(ref), scale=max(np.abs(ref).max(), 0.1))
+                c.close(f"{path}", f"view curve '{label}' vs the closed form (transverse stress free)", force, np.array(ref), scale=(max(np.abs(ref).max(), 0.1) if "@" not in mat else np.abs(ref).max()))
         return c.result(dict(case=case["key"], stretches=lam.tolist()))
     raise ValueError(kind)
